@@ -365,8 +365,10 @@ fn sugar_nodes(ctx: CtxK) -> Vec<Node> {
         if ctx == CtxK::Tap { MultiA(2, vec![k0, k1, k2]) } else { Multi(2, vec![k0, k1, k2]) },
         if ctx == CtxK::Tap { SortedMultiA(2, vec![k2, k0, k1]) } else { SortedMulti(2, vec![k2, k0, k1]) },
         if ctx == CtxK::Tap { SortedMultiA(1, vec![k1]) } else { SortedMulti(1, vec![k1]) },
+        // raw public key hashes (reachable by decoding a script): regression inputs for b17364cb
+        Check(bx(RawPkH(if ctx == CtxK::Tap { 200 } else { 0 }))),
     ];
-    let kt: Vec<Node> = vec![PkK(k0), PkH(k1),
+    let kt: Vec<Node> = vec![PkK(k0), PkH(k1), RawPkH(if ctx == CtxK::Tap { 201 } else { 1 }),
         OrI(bx(PkK(k0)), bx(PkH(k1))), AndV(bx(Verify(bx(pk(k2)))), bx(PkK(k0)))];
     v.extend(bs.iter().cloned());
     v.extend(kt.iter().cloned());
@@ -407,13 +409,15 @@ fn sugar_nodes(ctx: CtxK) -> Vec<Node> {
     v.push(Thresh(1, vec![pk(k0)]));
     v.push(Thresh(2, vec![pk(k0), Swap(bx(pk(k1))), Alt(bx(OrI(bx(False), bx(pk(k2)))))]));
     v.push(Thresh(1, vec![sugar_u(pk(k0)), Alt(bx(sugar_l(Older(10)))), Swap(bx(AndOr(bx(pk(k1)), bx(pk(k2)), bx(False))))]));
-    // raw public key hashes (only reachable by decoding a script): exactly three fixed shapes
+    // raw public key hashes: the three shapes that failed before b17364cb (bare: unparseable name;
+    // c: folded into the name of the bare fragment), in every context, plus mixed forms
     let rp = if ctx == CtxK::Tap { 200 } else { 0 };
-    if matches!(ctx, CtxK::Segwitv0 | CtxK::Tap) {
     v.push(RawPkH(rp));
     v.push(Check(bx(RawPkH(rp))));
     v.push(Check(bx(AndV(bx(Verify(bx(True))), bx(RawPkH(rp))))));
-    }
+    v.push(Check(bx(OrI(bx(PkK(k0)), bx(RawPkH(rp + 1))))));
+    v.push(AndV(bx(Verify(bx(Check(bx(RawPkH(rp)))))), bx(True)));
+    v.push(OrI(bx(False), bx(Check(bx(RawPkH(rp))))));
     v.into_iter().filter(|n| constructible(ctx, n)).collect()
 }
 
@@ -469,7 +473,7 @@ pub fn run_ms(out: &mut Out, thorough: bool, rng: &mut Rng) -> BTreeMap<CtxK, Ve
                 CtxK::Tap => ast::to_ms::<XOnlyPublicKey, Tap>(n).map(|m| m.to_string()),
             };
             if let Ok(s) = sugar {
-                if s.contains("expr_raw") { out.count("alias skipped-raw-pkh"); } else { emit_alias(out, ctx, n, &s); }
+                emit_alias(out, ctx, n, &s);
                 strs.push((n.clone(), s));
             }
         }
@@ -876,7 +880,7 @@ fn run_desc(out: &mut Out, thorough: bool, rng: &mut Rng, ms: &BTreeMap<CtxK, Ve
         let pool = &ms[&ctx];
         let step = (pool.len() / cap).max(1);
         for (n, sugar) in pool.iter().step_by(step) {
-            if sugar.contains("expr_raw") { continue; } // raw key hashes: judged at miniscript level
+            if sugar.contains("expr_raw") { continue; } // `Descriptor::from_str` refuses raw key hashes on purpose (allow_raw_pkh = false)
             // `bare(c:pk_h(K))` is judged once below with a fixed key
             if ctx == CtxK::Bare && matches!(n, Node::Check(x) if matches!(**x, Node::PkH(_))) { continue; }
             let d: Option<Descriptor<DescriptorPublicKey>> = match ctx {
